@@ -28,7 +28,7 @@ def main(argv):
         if a.replay:
             return mod.replay(a.replay)
         run = core.Run(prop, a.tier, mod.LEVEL)
-        run.deadline = a.deadline if a.deadline else (2400 if a.tier == "thorough" else None)
+        run.deadline = a.deadline if a.deadline else (1500 if a.tier == "thorough" else None)
         run.selftest = a.selftest
         mod.check(run)
         return run.finish()
